@@ -27,7 +27,7 @@ def _imports():
 
 KINDS = ["xor_add", "mul", "div", "mod", "sdiv", "addmod", "mulmod", "exp", "exp", "bytes_len", "bytes_tail", "arr_sum", "two_args", "storage", "signed", "shift",
          "nested_assert", "conj3", "arr_loop", "loop_guard", "smod_zero", "mod_zero", "div_zero", "sdiv_zero", "addmod_zero", "mulmod_zero",
-         "mul_exp", "mul_exp", "two_fail", "two_fail", "div_zero_hit", "mod_zero_hit", "sdiv_zero_hit", "smod_zero_hit"]
+         "mul_exp", "mul_exp", "two_fail", "two_fail", "multi_width", "multi_width", "div_zero_hit", "mod_zero_hit", "sdiv_zero_hit", "smod_zero_hit"]
 
 
 def case(seed, idx, res, tier):
